@@ -129,6 +129,7 @@ func c02Roundtrip(c *core.Ctx, k *core.Case) {
 			c.Fail(k, "encode-error:"+def.Name, fmt.Sprintf("well-formed %s does not encode: %v", def.Name, err))
 			return
 		}
+		c.Hold(k, "nas.Message.PlainNasEncode", wire)
 		wire = cloneB(wire)
 		in := cloneB(wire)
 		if path == pathPlain {
@@ -454,6 +455,7 @@ func c03FixedPoint(c *core.Ctx, k *core.Case) {
 		c.Fail(k, "reencode-error:"+mn, fmt.Sprintf("decoded %s does not re-encode: %v (input %s)", mn, err, hx(b)))
 		return
 	}
+	c.Hold(k, "nas.Message.PlainNasEncode", e1)
 	e1 = cloneB(e1)
 	in2 := cloneB(e1)
 	d2 := nas.NewMessage()
